@@ -36,7 +36,8 @@ ASSUMPTIONS = ["the replica applies each controller's documented per-step update
 REACH_PROBES = ["recycled_power_flow_executed", "batch_read_path_taken", "only_v_results", "intermediate_dump",
                 "step_failed_then_next_step_checked", "second_run_on_same_net", "line_parameter_controlled",
                 "multi_index_controller", "tap_controller_in_loop", "subset_logged_in_non_table_order",
-                "dc_recycled_power_flow_executed", "variable_removed_and_requested_again"]
+                "dc_recycled_power_flow_executed", "variable_removed_and_requested_again",
+                "non_contiguous_or_unsorted_element_index", "variable_of_empty_element_table_requested"]
 
 CTRL_TARGETS = [("load", "p_mw"), ("load", "q_mvar"), ("load", "scaling"), ("sgen", "p_mw"), ("sgen", "q_mvar"),
                 ("sgen", "scaling"), ("storage", "p_mw"), ("gen", "p_mw"), ("gen", "vm_pu"), ("ext_grid", "vm_pu"),
@@ -88,6 +89,10 @@ def generate(rng, idx, tier):
     ol = [{"op": "template", "name": cfg["template"]}]
     if rng.random() < 0.3:
         ol.append(ops.gen_create(rng, ["storage", "load", "sgen", "gen"]))
+    for _ in range(rng.choice([0, 0, 1, 2])):
+        # element tables with non-contiguous / unsorted indices (recorded columns are element indices)
+        ol.append({"op": "reindex", "table": rng.choice(["line", "bus", "trafo", "load", "line", "bus"]),
+                   "mode": rng.choice(["spread", "rotate", "reverse_rows"])})
     n_ctrl = rng.randint(1, 4)
     # a quarter of the episodes is shaped so that the batch-read / only_v_results shortcut engages:
     # only bus-pq / gen class controllers with recycle on, plain constructor log variables
@@ -323,6 +328,24 @@ def execute(ep, ctx):
             if k in ("create", "toggle", "set"):
                 st, _ = ops.apply_basic(net, op)
                 ctx.event(k, st)
+            elif k == "reindex":
+                import pandapower.toolbox as tb
+                t = op["table"]
+                idx = net[t].index.tolist() if t in net else []
+                if len(idx) < 2:
+                    continue
+                if op["mode"] == "spread":
+                    lookup = {x: 3 * x + 5 for x in idx}
+                elif op["mode"] == "rotate":
+                    lookup = {idx[j]: idx[(j + 1) % len(idx)] for j in range(len(idx))}
+                else:
+                    lookup = None
+                if lookup is not None:
+                    (tb.reindex_buses if t == "bus" else lambda n_, l_: tb.reindex_elements(n_, t, lookup=l_))(net, lookup)
+                else:
+                    net[t] = net[t].iloc[::-1]         # same labels, rows in reverse order
+                ctx.probe("non_contiguous_or_unsorted_element_index")
+                ctx.event("reindex", t, op["mode"])
             elif k == "const_control":
                 el, var = op["element"], op["variable"]
                 if el not in net or len(net[el]) == 0 or var not in net[el].columns:
@@ -397,7 +420,9 @@ def _make_ow(net, ow_op, time_steps, tmpdir, ctx=None):
         lv, wanted = [], []
         for lg in ow_op["logs"]:
             t, v = lg["table"], lg["variable"]
-            if t[4:] in net and len(net[t[4:]]) and (t, v) not in lv:
+            if t[4:] in net and (t, v) not in lv:
+                if not len(net[t[4:]]):
+                    ctx is not None and ctx.probe("variable_of_empty_element_table_requested")
                 lv.append((t, v))
                 wanted.append((t, v, None, None, None))
         ow = OutputWriter(net, time_steps, output_path=tmpdir if ow_op["path"] else None,
@@ -412,7 +437,16 @@ def _make_ow(net, ow_op, time_steps, tmpdir, ctx=None):
     for lg in ow_op["logs"]:
         t, v = lg["table"], lg["variable"]
         el = t[4:]
-        if el not in net or len(net[el]) == 0:
+        if el not in net:
+            continue
+        if len(net[el]) == 0:
+            # a variable of an element type without elements is still a request that must be recorded (no columns)
+            if lg["eval"] or lg["subset"] or (t, v, None) in seen:
+                continue
+            seen.add((t, v, None))
+            ow.log_variable(t, v)
+            wanted.append((t, v, None, None, None))
+            ctx is not None and ctx.probe("variable_of_empty_element_table_requested")
             continue
         # one request per (table, variable, eval): repeated requests for the same output column are
         # merged by the OutputWriter in ways the column names cannot tell apart
